@@ -25,17 +25,17 @@ func init() {
 			{ID: "C15-R2", Title: "object.Compare: != negates ==; ordering from one Compare sign", Floor: 5, Run: c15r2},
 			{ID: "C15-R3", Title: "HashKey is the payload itself", Floor: 5, Run: c15r3},
 			{ID: "C15-R4", Title: "no ordering by integer subtraction", Floor: 8, Run: c15r4},
-			{ID: "C15-R5", Title: "sorts by the script-level ordering are stable", Floor: 2, Run: c15r5},
+			{ID: "C15-R5", Title: "sorts by the script-level ordering are stable", Floor: 1, Run: c15r5},
 			{ID: "C15-R6", Title: "mirrored Equals cases compute the same relation", Floor: 2, Run: c15r6},
 			{ID: "C15-R7", Title: "derived fields are updated by every mutator (shared with C16-R4)", Floor: 5, Run: c16r4},
 			{ID: "C15-R8", Title: "comparison functions are lexicographic where they compare two keys (shared with C05-R5)", Floor: 1, Run: lexicographicBoth},
-			{ID: "C15-R9", Title: "container equality tests key presence with a two-value lookup", Floor: 2, Run: equalityChecksPresence},
+			{ID: "C15-R9", Title: "container equality tests key presence with a two-value lookup", Floor: 1, Run: equalityChecksPresence},
 			{ID: "C15-R10", Title: "Compare/Equals convert floats to integers only under a range test", Floor: 5, Run: floatToIntGuarded},
 			{ID: "C15-R11", Title: "Compare/Equals/HashKey push no operand through a lossy conversion", Floor: 20, Run: lossyConversionsInComparisons},
 			{ID: "C15-R12", Title: "times are compared as instants (Equal/Before/After), never with ==", Floor: 1, Run: timesComparedAsInstants},
 			{ID: "C15-R13", Title: "Equals and HashKey look at the same thing", Floor: 1, Run: equalsAndHashKeyLookAtTheSameThing},
 			{ID: "C15-R14", Title: "pair walks remember pairs", Floor: 2, Run: pairWalksRememberPairs},
-			{ID: "C15-R15", Title: "literals build their own kind", Floor: 3, Run: literalsBuildTheirOwnKind},
+			{ID: "C15-R15", Title: "literals build their own kind", Floor: 1, Run: literalsBuildTheirOwnKind},
 			{ID: "C15-R16", Title: "hash keys take the value as it is", Floor: 5, Run: hashKeysTakeTheValueAsItIs},
 			{ID: "C15-R17", Title: "failures noted in sort callbacks stick (shared with C16-R25)", Floor: 1, Run: failuresNotedInCallbacksStick},
 			{ID: "C15-R18", Title: "membership accepts what iteration yields", Floor: 2, Run: membershipAcceptsWhatIterationYields},
